@@ -99,6 +99,8 @@ class Driver:
                     ev.append(("getcol_attr", t, c))
                 ev.append(("getcol_cols", t, 0))
                 ev.append(("select", t))
+                ev.append(("col2d_name", t))
+                ev.append(("col2d_index", t))
                 ev.append(("lshift_row", t))
                 ev.append(("rshift_tdict_list", t))
                 for v in vecs:
@@ -280,6 +282,19 @@ class Driver:
                     col = t.obj.cols(c)
                 sl.append(Slot("col", col, t.coltokens[c]))
                 return Outcome(new=len(sl) - 1, readonly=True)
+            if op in ("col2d_name", "col2d_index"):
+                # t[rows, one column] is a selection (a new vector), also when the row slice covers the whole table
+                t = sl[ev[1]].obj
+                names = t.column_names()
+                if not names or len(t) == 0:
+                    raise Disabled()
+                if op == "col2d_name":
+                    if not isinstance(names[-1], str) or names.index(names[-1]) != len(names) - 1:
+                        raise Disabled()
+                    r = t[:, names[-1]]
+                else:
+                    r = t[0:len(t), 0]
+                return add_any(r)
             if op == "select":
                 t = sl[ev[1]].obj
                 names = [n for n in t.column_names() if isinstance(n, str)]
